@@ -12,7 +12,7 @@ import random
 from harness import core, tlc
 from props import misc_c36 as tc
 
-INVS = ["TypeOK", "Identity", "RoundTrip", "PathIndependent", "OrderPreserved", "Neighbour"]
+INVS = ["TypeOK", "Identity", "RoundTrip", "PathIndependent", "OrderPreserved", "Neighbour", "NowIndependentOfZone"]
 QUICK = dict(Bases={"n1e9", "m0", "epoch", "p1e9", "y2106", "y9000", "y9000c"}, Coarse={"y9000c"}, SubUs={"n1e9", "m0", "epoch", "p1e9"},
              Offs={0, 1, 2}, Quarters={0, 1, 2, 3})
 THOROUGH = dict(Bases={"n1e9", "m0", "epoch", "p1e9", "y2106", "y9000", "y9000c"}, Coarse={"y9000c"}, SubUs={"n1e9", "m0", "epoch", "p1e9"},
@@ -77,7 +77,7 @@ def run(tier: str) -> int:
         cases = tc.now_cases()
         n_impl += len(cases)
         ck.note("schedulers_whose_now_was_read", [c[0] for c in cases])
-        for f in tc.judge_now(ln["obs"]):
+        for f in tc.judge_now(ln["obs"], ln["scn"]["zone"]):
             ck.fail(f)
     ck.impl = n_impl
     ck.nontrivial = sum(1 for ln in conv if ln["scn"]["kind"] != ln["scn"]["target"])
@@ -97,7 +97,7 @@ def run(tier: str) -> int:
 
 def replay(rec) -> int:
     if rec["scn"].get("mode") == "now":
-        fails = [f for f in tc.judge_now(rec["expected"]) if f["scheduler"] == rec.get("scheduler")]
+        fails = [f for f in tc.judge_now(rec["expected"], rec.get("zone", 0)) if f["scheduler"] == rec.get("scheduler")]
     else:
         fails = tc.judge(rec["scn"], rec["expected"], stride_i=rec.get("stride_i", 0), zone_i=rec.get("zone_i", 0), holder=rec.get("holder", "Scheduler"))
     print(json.dumps(fails[0], default=str)[:2000] if fails else "replay: observation allowed by the spec")
@@ -106,7 +106,7 @@ def replay(rec) -> int:
 
 META = {
     'technique': 'TLC-enumerated case table of TimeConv.tla (tagged time values, conversions change only the kind, algebraic laws as invariants) made concrete by a magnitude codec and given to the real conversion functions',
-    'level': 'TLC checks identity, round-trip, path-independence, order-preservation and neighbour laws on every case of the 3x3 kind table x magnitude classes x offsets x ordered pairs and exports per case the allowed results and order relations; the real to_seconds/to_datetime/to_timedelta must return the allowed value (exact for aligned values, a neighbouring microsecond for floats between two microseconds), round-trip to the identical value, never invert an order (strict for distinct aligned values), and every constructible scheduler.now must be an aware datetime with zero UTC offset. The TLA+ part is a small table; the numerically interesting magnitudes are chosen in the Python codec (stated candidly in notes/misc.md).',
+    'level': 'TLC checks identity, round-trip, path-independence, order-preservation and neighbour laws on every case of the 3x3 kind table x magnitude classes x offsets x ordered pairs and exports per case the allowed results and order relations; the real to_seconds/to_datetime/to_timedelta must return the allowed value (exact for aligned values, a neighbouring microsecond for floats between two microseconds), round-trip to the identical value, never invert an order (strict for distinct aligned values), and every constructible scheduler.now must be an aware datetime with zero UTC offset that denotes the present instant whatever the local time zone of the process is (read under TZ = UTC, UTC+9, UTC-5). The TLA+ part is a small table; the numerically interesting magnitudes are chosen in the Python codec (stated candidly in notes/misc.md).',
     'note': "TLC 1.8; codec of props/misc_c36.py (Fraction -> correctly rounded float, magnitude classes, strides, zones)",
     'ref': 'DESIGN.md 6 C36, 7',
 }
